@@ -124,9 +124,13 @@ func genIdle(t *rapid.T) int { return rapid.SampledFrom([]int{0, 0, 0, 10, 30}).
 // is in flight while a same-tuple WebSocket subscriber could be affected), so the search continues
 // behind them; with steer=false everything is allowed.
 func genStepped(t *rapid.T) Case {
+	if rapid.IntRange(0, 7).Draw(t, "chain") == 0 {
+		return genChain(t)
+	}
 	c := Case{IdleMs: genIdle(t), LegacyFirst: rapid.IntRange(0, 4).Draw(t, "legacy") == 0}
 	c.Tuples = genTuples(t, 25)
 	c.Subs = genSubs(t, len(c.Tuples))
+	genHandlerActs(t, &c, true)
 	steer := rapid.IntRange(0, 9).Draw(t, "steer") < 6 && (pbt.IsKnown(fDialCtx) || pbt.IsKnown(fCancelWrite))
 	c.Steer = steer
 
@@ -134,6 +138,7 @@ func genStepped(t *rapid.T) Case {
 	started := make([]bool, n)
 	cancelled := make([]bool, n)
 	precancelled := make([]bool, n)
+	releasedH := make([]bool, n)
 	returned := make([]bool, n) // model: Subscribe has returned (its tuple's gate was open at or after the start)
 	left := make([]int, n)
 	for i, s := range c.Subs {
@@ -186,6 +191,9 @@ func genStepped(t *rapid.T) Case {
 			if started[i] && left[i] > 0 && returned[i] {
 				acts = append(acts, act{Step{Op: "send", Sub: i}, 5})
 			}
+			if on := c.Subs[i].On; on != nil && on.Act == "block" && started[i] && !releasedH[i] && len(c.Subs[i].script())-left[i] > on.At {
+				acts = append(acts, act{Step{Op: "release", Sub: i}, 1})
+			}
 		}
 		for k := range c.Tuples {
 			anyStarted, nStarted := false, 0
@@ -236,6 +244,8 @@ func genStepped(t *rapid.T) Case {
 				precancelled[s.Sub] = true
 			}
 			returned[s.Sub] = started[s.Sub]
+		case "release":
+			releasedH[s.Sub] = true
 		case "send":
 			left[s.Sub]--
 		case "ack":
@@ -288,6 +298,7 @@ func genBurst(t *rapid.T) Case {
 			s.At = rapid.IntRange(0, len(s.script())).Draw(t, "b.at")
 		}
 	}
+	genHandlerActs(t, &c, false)
 	c.DropAfter = make([]int, len(c.Tuples))
 	for k := range c.DropAfter {
 		c.DropAfter[k] = -1
@@ -343,6 +354,101 @@ func genPing(t *rapid.T) Case {
 			if rapid.IntRange(0, 2).Draw(t, "p.post") > 0 {
 				c.Steps = append(c.Steps, Step{Op: "send", Sub: i})
 			}
+		}
+	}
+	return c
+}
+
+// genHandlerActs scripts what some handlers do from inside the delivery: cancel their own subscription,
+// cancel another one (preferably one multiplexed on the same connection), or - stepped only - block until
+// released while the schedule goes on around them.
+func genHandlerActs(t *rapid.T, c *Case, withBlock bool) {
+	acts := []string{"cancel-self", "cancel-other", "block"}
+	if !withBlock {
+		acts = acts[:2]
+	}
+	for i := range c.Subs {
+		if rapid.IntRange(0, 3).Draw(t, "h.any") != 0 {
+			continue
+		}
+		n := len(c.Subs[i].script())
+		if n == 0 {
+			continue
+		}
+		on := &OnMsg{At: rapid.IntRange(0, n-1).Draw(t, "h.at"), Act: rapid.SampledFrom(acts).Draw(t, "h.act"), Other: i}
+		if on.Act == "cancel-other" {
+			var same, any []int
+			for j := range c.Subs {
+				if j == i {
+					continue
+				}
+				any = append(any, j)
+				if c.Subs[j].Tuple == c.Subs[i].Tuple {
+					same = append(same, j)
+				}
+			}
+			switch {
+			case len(same) > 0 && rapid.IntRange(0, 3).Draw(t, "h.same") > 0:
+				on.Other = rapid.SampledFrom(same).Draw(t, "h.other")
+			case len(any) > 0:
+				on.Other = rapid.SampledFrom(any).Draw(t, "h.otherany")
+			default:
+				on.Act = "cancel-self"
+			}
+		}
+		c.Subs[i].On = on
+	}
+}
+
+// genChain: one gated WebSocket tuple, a first dialler, one or two survivors that are never cancelled and a
+// handful of expendable callers, all with equal options, so that everybody but the dialler waits on the same
+// coalesced dial. Then the dialler is abandoned (cancel / own deadline), the waiters race for the next dial,
+// that dialler is abandoned too, and so on, three to five times in a row, before the upstream finally
+// acknowledges. A survivor must end up subscribed however many dials it had to wait through.
+func genChain(t *rapid.T) Case {
+	tp := genTuple(t, "c.t")
+	tp.SSE, tp.Gate = false, true
+	if tp.Proto > 2 {
+		tp.Proto = 0
+	}
+	c := Case{Tuples: []Tuple{tp}, LegacyFirst: rapid.IntRange(0, 4).Draw(t, "c.legacy") == 0}
+	expendable := rapid.IntRange(4, 7).Draw(t, "c.expendable")
+	survivors := rapid.IntRange(1, 2).Draw(t, "c.survivors")
+	for i := 0; i < expendable+survivors; i++ {
+		c.Subs = append(c.Subs, Sub{Tuple: 0, Nexts: rapid.IntRange(0, 2).Draw(t, "c.nexts"), Term: rapid.SampledFrom([]string{"none", "complete"}).Draw(t, "c.term")})
+	}
+	other := -1
+	if rapid.Bool().Draw(t, "c.othertuple") { // a bystander on a near-equal, ungated tuple with traffic of its own
+		m := mutate(t, tp, "c.m")
+		m.Gate = false
+		if m.canonical() != tp.canonical() {
+			c.Tuples = append(c.Tuples, m)
+			c.Subs = append(c.Subs, Sub{Tuple: 1, Nexts: 2, Term: "none"})
+			other = len(c.Subs) - 1
+		}
+	}
+	first := expendable                                // index of the first survivor
+	c.Steps = append(c.Steps, Step{Op: "sub", Sub: 0}) // the first dialler
+	for i := first; i < first+survivors; i++ {
+		c.Steps = append(c.Steps, Step{Op: "sub", Sub: i})
+	}
+	if other >= 0 {
+		c.Steps = append(c.Steps, Step{Op: "sub", Sub: other}, Step{Op: "send", Sub: other})
+	}
+	for i := 1; i < expendable; i++ {
+		c.Steps = append(c.Steps, Step{Op: "sub", Sub: i})
+	}
+	rounds := rapid.IntRange(3, 5).Draw(t, "c.rounds")
+	for r := 0; r < rounds; r++ {
+		c.Steps = append(c.Steps, Step{Op: "abandon", Key: 0, Sub: first})
+		if other >= 0 && r == 1 {
+			c.Steps = append(c.Steps, Step{Op: "send", Sub: other})
+		}
+	}
+	c.Steps = append(c.Steps, Step{Op: "ack", Key: 0})
+	for round := 0; round < 3; round++ {
+		for i := first; i < first+survivors; i++ {
+			c.Steps = append(c.Steps, Step{Op: "send", Sub: i})
 		}
 	}
 	return c
